@@ -47,6 +47,17 @@ def nat_list(l):
 
 # ------------------------------------------------------------------------------------------------ C16
 
+def expected_member(h, helpers):
+    import re
+    if h["deprecated"]:
+        m = re.search(r"`([A-Za-z_0-9]+)`", h.get("deprecated_msg") or "")
+        if m and any(x["name"] == m.group(1) for x in helpers):
+            return expected_member(next(x for x in helpers if x["name"] == m.group(1)), helpers)
+        return h["const"]          # no machine-readable target: fall back to the forwarded constant
+    n = h["name"]
+    return (n[:-1] if n.endswith("_") else n).upper()
+
+
 def merged_defaults(vt_kind, ty):
     """{**default_attributes[0], **default_attributes[ty]} re-derived from the JSON the translator dumped (for the ORACLE)"""
     by = {t["id"]: t for t in vt_kind}
@@ -92,7 +103,14 @@ def run_c16(version, tier, seed, escalate, T):
         ids = {t["id"] for t in table}
         d0 = merged_defaults(table, 0) or {}
         for h in H[hkey]:
-            ty = H["enums"][enum][h["const"]]
+            # the type the helper is NAMED after (not the constant it forwards): NAME.upper(), a trailing underscore dropped
+            # (Python keyword clash); a @deprecated alias is named after the helper its message points to
+            want_name = expected_member(h, H[hkey])
+            if want_name not in H["enums"][enum]:
+                cases.append({"cmd": f"helpers {kind}", "obs": f"helper {h['name']} is not named after an enum member", "key": f"{version}:{kind}:{h['name']}:name",
+                              "nontrivial": False, "tags": ["name:unknown"]})
+                continue
+            ty = H["enums"][enum][want_name]
             has = ty in ids
             params = h["params"]
             md = merged_defaults(table, ty) if has else None
@@ -132,6 +150,10 @@ def run_c16(version, tier, seed, escalate, T):
                     if len(params) >= 2:
                         sub = [p for p in params if rng.random() < 0.5]
                         argsets.append((f"rand{j}", {p: sentinel(p, params.index(p), salt=1 + j % 5) for p in sub}))
+                # falsy but not None: 0 / [] must be stored like any other value (`is not None`, not truthiness)
+                zeros = {p: (0 if not isinstance(full[p], (str, list)) else ([] if isinstance(full[p], list) else full[p])) for p in params}
+                if any(v == 0 and not isinstance(v, list) for v in zeros.values()):
+                    argsets.append(("zeros", zeros))
                 # explicit None is the same as not passing
                 if params:
                     argsets.append(("explicit-none", {params[0]: None}))
@@ -200,7 +222,7 @@ def run_c16(version, tier, seed, escalate, T):
                     bad.append(("lacks", f"type {ty} is not in v{version} but {h['name']}() returned a component"))
                 else:
                     if cty != ty:
-                        bad.append(("type", f"{h['name']}() created type {cty}, its name says {h['const']} = {ty}"))
+                        bad.append(("type", f"{h['name']}() created type {cty}, its name says {want_name} = {ty}"))
                     supplied = {p: v for p, v in args.items() if v is not None}
                     for p, v in supplied.items():
                         if p not in md or p in EXCL:
